@@ -50,6 +50,24 @@ CLAIMS = {
         "Trusted: lark Transformer traversal order; grammar child kinds as computed from the grammar extracted from parser.py.",
         "DESIGN.md §4 C08",
     ),
+    "C01": (
+        "effect-grammar extraction by abstract interpretation of the codec handlers (encoder vs decoder agreement per type constructor), cursor typestate of the buffer class, linear normal forms of the bit mappings, threshold ordering of the sign test",
+        "Structural (writer/reader agreement): for each of the 10 type classes the parser can produce, encoder and decoder perform the same sequence of primitive transfers (widths, counts, order, granularity, prefix/flag relations); both dispatchers are exhaustive; only the bit primitives touch the store and every transfer advances the cursor by its width on every path, at any alignment; push/read and set/get have equal bit-mapping normal forms; the signed decoder takes the negative branch exactly for word >= 2^(N-1); pack/unpack formats agree; no module-level state on the codec path. Necessary for round-trip for every schema and alignment; with Python's unbounded ints and exact struct packing it is the whole mechanism. Value plumbing beyond prefix/flag relations is not decided.",
+        "Trusted: struct.pack/unpack exactness and little-endian host; handlers outside the supported statement forms are UNDECIDED. KNOWN FINDING D3 (sign threshold `>`), not repairable without breaking a pinned test.",
+        "DESIGN.md §4 C01, §2.3",
+    ),
+    "C02": (
+        "effect grammars and primitive normal forms compared with the canonical wire grammar frozen from the property (oracle table self-checked against the project's vectors); masked-write flow rule; thorough: same comparison on buffer.h/decoders.h through clang",
+        "Structural (agreement with the canonical grammar): encoder and decoder effect grammars equal the canonical grammar for all 10 constructors (W(N) from the declared width, u32 count prefix, u8 presence flag {1,0}, enum packed size, fields in ascending id, nothing between); the primitives implement bit i -> address cursor+i, byte = a div 8, bit = a mod 8 placed by <<, zero growth; word writes are masked to their width. A symmetric deviation passes round-trip and fails here.",
+        "Trusted: the canonical table (validated each run against tests/standardized/fcp_tests.json by the checker's own interpreter); struct native formats. KNOWN FINDING D3.",
+        "DESIGN.md §4 C02, Appendix A.1",
+    ),
+    "C16": (
+        "bounds-test dominance (CFG) for every store read of the buffer class with comparator decided on the three orderings; taint of decoded values into loop bounds and allocations; per-call freshness of the decode buffer",
+        "Structural: every subscript read of the byte store is dominated by a test that raises exactly for index >= len(store) (slices are not accepted without a raising test on their upper bound); a decoded count may bound only a loop that performs a guarded read on every iteration and never sizes an allocation; decode() builds its buffer per call, fills it once from the input and starts at bit 0. Covers every schema and every truncation point because it is a fact about the read primitive and the handlers' loops.",
+        "Trusted: list indexing semantics; arithmetic sufficiency of a rewritten (slice-based) read is UNDECIDED, not decided.",
+        "DESIGN.md §4 C16",
+    ),
 }
 
 NOT_BUILT = "check not built yet in this session (see DESIGN.md §7 build order); not claimed until it exists"
